@@ -65,12 +65,15 @@ def expected_model(lines: list[dict]) -> dict:
                 doc.append(strip_comment(sec[k][1]["comment"]))
                 k += 1
             d = "\n".join(doc)
+            # "str": the normalized DSDL form of the attribute (declared name, normalized type, evaluated value)
             if st[0] == "field":
-                s["fields"].append({"kind": "Field", "type": st[1], "name": st[2], "doc": d})
+                s["fields"].append({"kind": "Field", "type": st[1], "name": st[2], "doc": d, "str": "%s %s" % (st[1], st[2])})
             elif st[0] == "pad":
-                s["fields"].append({"kind": "PaddingField", "type": st[1], "name": "", "doc": d})
+                s["fields"].append({"kind": "PaddingField", "type": st[1], "name": "", "doc": d, "str": st[1]})
             elif st[0] == "const":
-                s["constants"].append({"type": st[1], "name": st[2], "value": st[3], "doc": d})
+                v = st[3]
+                vs = str(v) if not isinstance(v, dict) else ("%d/%d" % tuple(v["q"]) if v["q"][1] != 1 else str(v["q"][0]))
+                s["constants"].append({"type": st[1], "name": st[2], "value": v, "doc": d, "str": "%s %s = %s" % (st[1], st[2], vs)})
         out_sections.append(s)
     return {"service": len(sections) == 2, "deprecated": deprecated, "sections": out_sections, "prints": prints}
 
@@ -82,11 +85,11 @@ def project_actual(d: dict) -> dict:
         fields, consts = [], []
         for a in c["attributes"]:
             if a["kind"] in ("Field", "PaddingField"):
-                fields.append({"kind": a["kind"], "type": a["type"]["str"], "name": a["name"], "doc": a["doc"]})
+                fields.append({"kind": a["kind"], "type": a["type"]["str"], "name": a["name"], "doc": a["doc"], "str": a["str"]})
             else:
                 v = a["value"]
                 vv = v["q"][0] if "q" in v and v["q"][1] == 1 else v
-                consts.append({"type": a["type"]["str"], "name": a["name"], "value": vv, "doc": a["doc"]})
+                consts.append({"type": a["type"]["str"], "name": a["name"], "value": vv, "doc": a["doc"], "str": a["str"]})
         delimited = c["cls"] == "DelimitedType"
         return {
             "doc": c["doc"],
